@@ -654,6 +654,7 @@ func (s *Search) Run(start ssa.Instruction) (bool, []string) {
 	}
 	st.armed = s.Via == nil && s.ArmAt == nil
 	visited := map[string]bool{}
+	seenAt := map[int][]map[string]string{}
 	queue := []*state{st}
 	steps := 0
 	for len(queue) > 0 {
@@ -729,10 +730,61 @@ func (s *Search) Run(start ssa.Instruction) (bool, []string) {
 				continue
 			}
 			visited[key] = true
+			// subsumption: a state already queued for this block with a subset of these facts
+			// explores a superset of the paths this one would
+			bk := succ.Index * 2
+			if armed {
+				bk++
+			}
+			if subsumed(seenAt[bk], facts) {
+				continue
+			}
+			if len(seenAt[bk]) < 256 {
+				seenAt[bk] = append(seenAt[bk], facts)
+			}
 			queue = append(queue, &state{b: succ, idx: 0, facts: facts, prev: cur, armed: armed})
 		}
 	}
 	return false, nil
+}
+
+// subsumed reports whether one of the fact sets in seen is a subset of facts.
+func subsumed(seen []map[string]string, facts map[string]string) bool {
+next:
+	for _, f := range seen {
+		if len(f) > len(facts) {
+			continue
+		}
+		for k, v := range f {
+			if facts[k] != v {
+				continue next
+			}
+		}
+		return true
+	}
+	return false
+}
+
+// RunAtEdge searches from the head of the edge's target block, with the facts the edge itself
+// teaches (its branch condition, the values merges take on it).
+func (s *Search) RunAtEdge(e Edge) (bool, []string) {
+	if s.classes == nil && !s.NoFacts {
+		s.classes = condClasses(s.Fn)
+	}
+	if s.relCmp == nil {
+		s.computeRelevance()
+	}
+	facts := map[string]string{}
+	for k, v := range s.Assume {
+		facts[k] = v
+	}
+	if n := len(e.From.Instrs); n > 0 && !s.NoFacts {
+		if iff, ok := e.From.Instrs[n-1].(*ssa.If); ok {
+			s.learn(iff.Cond, e.Succ == 0, facts)
+		}
+		facts = s.enter(e.From, e.To(), facts)
+	}
+	return s.runAt(e.To(), facts)
 }
 
 func (s *Search) runAt(b *ssa.BasicBlock, facts map[string]string) (bool, []string) {
